@@ -16,19 +16,19 @@ ENUM_NOTE = ("Trusted base: the reference semantics written in the harness (set 
              "The enumerated domain is stated in the evidence file; nothing outside it is claimed.")
 
 checks = {
- "C01": ("wx", "explicit-state BFS over the real World vs reference model (storage oracle: Has/Mask/Ids/Get/value tokens + structural invariants on every state); capacity increments 1/2/128, IDs spread over mask words and layout chunks", "§4 C01"),
+ "C01": ("wx", "explicit-state BFS over the real World vs reference model (storage oracle: Has/Mask/Ids/Get/value tokens + structural invariants on every state); capacity increments 1/2/128 and separate relation capacity increments, IDs spread over mask words and layout chunks; the generic Map/Query access paths (all arities) against the ID-based core", "§4 C01"),
  "C02": ("wx", "explicit-state BFS to fixpoint over entity-only worlds (all free-list shapes up to K handles) + bounded BFS with table moves, batch removal and Reset; handle oracle on every state and transition", "§4 C02"),
  "C03": ("wx", "explicit-state BFS; on every state every menu filter (mask, without, exclusive, relation, logic; plain and registered) is iterated with all Next/Step compositions, Count, EntityAt and accessor cross-checks; batch-result queries on every Q transition", "§4 C03"),
  "C04": ("enum", "exhaustive enumeration of the bounded input domain of the pure mask/filter functions against a set-algebra reference: all ID pairs, all pairs of masks over word-boundary IDs, all filter expressions to nesting depth 2; both builds", "§4 C04"),
  "C05": ("wx", "explicit-state BFS over relation scenarios (designated-parent scenario to fixpoint) vs reference model of target rules, incl. dead/recycled/self targets through every API taking a target", "§4 C05"),
  "C06": ("wx", "explicit-state BFS over table-lifecycle alphabets (target death, retirement, re-use, self targets, batch removal, Reset) vs reference model + structural invariants", "§4 C06"),
- "C07": ("wx", "explicit-state BFS with Register/Unregister as ordinary operations; cached vs model-evaluated selection on every state, batch ops through cached and plain filter", "§4 C07"),
+ "C07": ("wx", "explicit-state BFS with Register/Unregister as ordinary operations; cached vs model-evaluated selection on every state, batch ops through cached and plain filter; generic filter-builder call sequences containing Register against the core filter", "§4 C07"),
  "C08": ("wx", "explicit-state BFS; every batch transition is compared with the model's loop of single-entity operations (state, count, Q-query contents)", "§4 C08"),
  "C09": ("wx", "explicit-state BFS over open-query (lock) states of a fixed world with a generated table of ~90 structural entry points called at every locked state and inside removal listeners, read-only calls and rejected LoadEntities/registration probes + exhaustive linear sweeps over the number of open queries; both builds", "§4 C09"),
- "C10": ("wx", "explicit-state BFS with every illegal-argument class as ordinary transitions at every reachable state; must panic, state oracle afterwards", "§4 C10"),
+ "C10": ("wx", "explicit-state BFS with every illegal-argument class as ordinary transitions at every reachable state; must panic, state oracle afterwards; registry limit, illegal world construction, documented panics of query accessors", "§4 C10"),
  "C11": ("wx", "explicit-state BFS with a recording listener; per transition the event multiset is compared with the model diff; at delivery time lock state, the entity's components/target/values and the state of all other entities are compared with the operation's result", "§4 C11"),
  "C12": ("wx", "explicit-state BFS; for the last operation of every history all 64 subscription masks x component restrictions and Dispatch compositions are replayed and compared with the documented selection of the full event stream", "§4 C12"),
- "C13": ("wx", "explicit-state BFS with replay-determinism guard (state key + transcript hash on every replay) + cross-process comparison of canonical per-level digests under different GC regimes", "§4 C13"),
+ "C13": ("wx", "explicit-state BFS with replay-determinism guard (state key + transcript hash on every replay) + cross-process comparison of canonical per-level digests under different GC regimes + a fixed script over listener.Dispatch / generic.Exchange / generic.Map replayed on fresh worlds", "§4 C13"),
  "C14": ("wx+model", "call-site matrix on the real runtime + BFS over histories with a full collection after every operation + exhaustive exploration of a tri-colour collector model against memory traces recorded from the implementation", "§4 C14"),
  "C15": ("wx", "explicit-state BFS over pairs (reset world, fresh world with the same registrations) in lock-step: identical handles and outcomes, both checked against the model", "§4 C15"),
  "C16": ("enum", "exhaustive enumeration of registration counts 0..limit+1 with re-lookups + deviation-bounded enumeration of registration/table-creation schedules + agreement of the generic and reflect-based entry points over 16 kinds of types x first-use orders; both builds", "§4 C16"),
